@@ -58,6 +58,8 @@ class Interp:
             return v.t
         if isinstance(v, bool):
             return z3.BoolVal(v)
+        if ty == FP64 and isinstance(v, (int, float)):
+            return z3.FPVal(v, z3.Float64())
         if isinstance(v, int):
             if ty == REAL:
                 return z3.RealVal(v)
@@ -111,6 +113,8 @@ class Interp:
                 return self.opt_payload(v)
             if ty == REAL and v.t.sort() == I:
                 return z3.ToReal(v.t)
+            if (ty == FP64) != (v.ty == FP64) and ty in (FP64, REAL, INT):
+                raise Unsupported('conversion between fp64 and mathematical numbers')
             return v.t
         return self.lift(v, ty)
 
@@ -260,6 +264,8 @@ class Interp:
                 return v.t != 0
             if ty == REAL:
                 return v.t != 0
+            if ty == FP64:
+                return z3.Not(z3.fpIsZero(v.t))
             if ty == STR:
                 return v.t != STR_EMPTY
             if isinstance(ty, TEnum):
@@ -325,7 +331,7 @@ class Interp:
                 return 'opt'
             if t == BOOL:
                 return 'bool'
-            if t in (INT, REAL):
+            if t in (INT, REAL, FP64):
                 return 'num'
             if t == STR:
                 return 'str'
@@ -401,6 +407,9 @@ class Interp:
         if fa in ('bool', 'num', 'str') or fa.startswith('enum:'):
             if not isinstance(a, SV) and not isinstance(b, SV):
                 return a == b
+            if self.is_fp(a) or self.is_fp(b):
+                ta, tb = self.fp_terms(a, b)
+                return z3.fpEQ(ta, tb)
             ta, tb = self.lift(a), self.lift(b)
             if ta.sort() != tb.sort():
                 if ta.sort() == I:
@@ -433,6 +442,22 @@ class Interp:
         if fa == 'dict':
             return self.dict_eq(a, b)
         raise Unsupported(f'== between {fa} values')
+
+    def is_fp(self, v):
+        return isinstance(v, SV) and v.ty == FP64
+
+    def fp_terms(self, a, b):
+        """operands of an IEEE comparison: fp64 values and python number literals (converted exactly / rounded as CPython
+        does when it compares a float with that literal)"""
+        out = []
+        for x in (a, b):
+            if self.is_fp(x):
+                out.append(x.t)
+            elif isinstance(x, (int, float)) and not isinstance(x, bool):
+                out.append(z3.FPVal(x, z3.Float64()))
+            else:
+                raise Unsupported('comparison of an fp64 value with a symbolic mathematical number')
+        return out
 
     def simp(self, t):
         t = z3.simplify(t)
@@ -678,7 +703,13 @@ class Interp:
         return d
 
     def dict_contains(self, d, k):
-        return self.dict_has(d)[1][d.ref][self.coerce_term(k, d.kty)]
+        has = self.dict_has(d)[1][d.ref][self.coerce_term(k, d.kty)]
+        if isinstance(k, SV) and isinstance(k.ty, TOpt) and not isinstance(d.kty, TOpt):
+            # None is never a key of a dict whose declared key type is not Optional
+            return z3.And(z3.Not(self.opt_is_none(k)), has)
+        if k is None and not isinstance(d.kty, TOpt):
+            return z3.BoolVal(False)
+        return has
 
     def dict_load(self, d, k):
         _, va = self.dict_val(d)
@@ -920,6 +951,8 @@ class InterpExpr:
             return ClassV(name)
         if modname.startswith('contracts') and name in self.reg.spec_funcs:
             return FuncV(self.reg.spec_funcs[name])    # helper predicate of another contract file
+        if modname.startswith('contracts') and name in getattr(self.ts.shapes, 'EXTERNAL_TYPES', {}):
+            return ClassV(name)      # external class declared in shapes (quantification over its allocated objects)
         if modname.startswith('contracts'):
             # contract files may name enums / constants of any repo module without importing them
             for mn, m2 in self.ct.modules.items():
@@ -1061,7 +1094,7 @@ class InterpExpr:
             return BoundMethod(obj, fi)
         cc = self.ct.find_class_const(cls, attr)
         if cc is not None:
-            v = self.class_const(cc)
+            v = self.class_const(cc, attr)
             if isinstance(v, (FuncV,)):   # function-valued class attribute is bound on access
                 return BoundMethod(obj, v.fi)
             return v
@@ -1155,7 +1188,24 @@ class InterpExpr:
                    if isinstance(x, Ty))
 
     def class_const(self, cc):
+    def class_heap_attr(self, dc, name):
+        """mutable class-level attribute declared in shapes.CLASS_HEAP_ATTRS: ONE heap object shared by every access
+        (python evaluates the class body once), allocated before the function under proof starts, contents unknown"""
+        ty = getattr(self.ts.shapes, 'CLASS_HEAP_ATTRS', {}).get((dc, name))
+        if ty is None:
+            return None
+        v = self.wrap(z3.Const(f'classattr:{dc}.{name}', Ref), ty)
+        self.assume_domain(v)
+        if getattr(self, 'old_heap', None) is not None:
+            self.run.assume(self.old_heap.get('alloc', arr(Ref, B))[v.ref], silent=True)
+        return v
+
+    def class_const(self, cc, name=None):
         dc, node = cc
+        if name is not None:
+            hv = self.class_heap_attr(dc, name)
+            if hv is not None:
+                return hv
         modname = self.ct.classes[dc].module
         if isinstance(node, tuple):
             _, idx, v = node
@@ -1177,7 +1227,7 @@ class InterpExpr:
                 return FuncV(fi)
             cc = self.ct.find_class_const(cname, attr)
             if cc is not None:
-                return self.class_const(cc)
+                return self.class_const(cc, attr)
             cd = self.ct.class_default(cname, attr)
             if cd is not None:
                 return self.ev(cd[0], Frame(None, cd[1], {}, None, cname))
@@ -1244,6 +1294,21 @@ class InterpExpr:
         if isinstance(base, ClassV) and base.name in self.ct.classes and self.ts.is_enum_class(base.name) \
                 and self.ts.enum_info(base.name)['is_enum']:
             return self.enum_by_name(base.name, key, line)
+        if isinstance(base, ClassV) and self.ts.is_enum_class(base.name) and self.ts.enum_info(base.name)['is_enum']:
+            # EnumClass[name]: the member of that name, KeyError otherwise
+            members = self.ts.enum_info(base.name)['members']
+            if isinstance(key, str):
+                m = self.ts.enum_member(base.name, key)
+                if m is None:
+                    self.partial(False, 'KeyError', line)
+                    raise Unsupported('unknown enum member name in spec mode')
+                return m
+            if isinstance(key, SV) and (key.ty == STR or key.ty == TOpt(STR)):
+                self.partial(z3.Or([key.t == self.strlit(mn) for mn, _, _ in members]), 'KeyError', line)
+                t = None
+                for mn, code, _ in reversed(members):
+                    t = z3.IntVal(code) if t is None else z3.If(key.t == self.strlit(mn), code, t)
+                return SV(t, TEnum(base.name))
         h = self.reg.getitem_hook(self, base, key, line)
         if h is not NotImplemented:
             return h
@@ -1433,6 +1498,8 @@ class InterpExpr:
         if isinstance(v, (int, float)):
             return self.lift(v)
         if isinstance(v, SV):
+            if v.ty == FP64:
+                raise Unsupported(f'arithmetic on an fp64 value at line {line}')
             if v.ty == BOOL:
                 return z3.If(v.t, 1, 0)
             if v.ty in (INT, REAL):
@@ -1445,6 +1512,9 @@ class InterpExpr:
         if all(isinstance(x, (int, float)) and not isinstance(x, bool) for x in (a, b)) or all(isinstance(x, str) for x in (a, b)):
             return {ast.Lt: a < b, ast.LtE: a <= b, ast.Gt: a > b, ast.GtE: a >= b}[type(op)]
         fa, fb = self.family(a), self.family(b)
+        if self.is_fp(a) or self.is_fp(b):
+            ta, tb = self.fp_terms(a, b)
+            return self.simp({ast.Lt: z3.fpLT, ast.LtE: z3.fpLEQ, ast.Gt: z3.fpGT, ast.GtE: z3.fpGEQ}[type(op)](ta, tb))
         if fa == 'str' and fb == 'str':
             ta, tb = str_rank(self.lift(a)), str_rank(self.lift(b))
         elif fa == 'tuple' and fb == 'tuple':
@@ -1653,18 +1723,46 @@ class InterpExpr:
         # evaluate the embedded expressions for their exception-safety, the text itself is an opaque string
         parts = []
         allconst = True
+        tmpl, vals, plain = [], [], True
         for v in n.values:
             if isinstance(v, ast.FormattedValue):
                 x = self.ev(v.value, fr)
+                tmpl.append('{}')
+                vals.append(x)
+                if v.format_spec is not None or v.conversion != -1:
+                    plain = False
                 if isinstance(x, (str, int)) and not isinstance(x, bool) and v.format_spec is None and v.conversion == -1:
                     parts.append(str(x))
                 else:
                     allconst = False
             else:
                 parts.append(v.value)
+                tmpl.append(v.value.replace('{', '{{').replace('}', '}}'))
         if allconst:
             return ''.join(parts)
+        if plain:
+            r = self.template_str('fmt:' + ''.join(tmpl), vals)
+            if r is not None:
+                return r
         return self.reg.fstring_hook(self, n, fr)
+
+    def template_str(self, template, vals):
+        """text built from a literal template and scalar values (str / int / bool / enum): an uninterpreted but
+        deterministic function of the values (the same template applied to equal values gives equal strings);
+        None when a value is not a scalar (its text may depend on the heap)"""
+        import hashlib
+        terms = []
+        for x in vals:
+            if isinstance(x, (str, bool, int, EnumMember)):
+                terms.append(self.lift(x))
+            elif isinstance(x, SV) and (x.ty in (STR, INT, BOOL) or isinstance(x.ty, TEnum) or x.ty == TOpt(STR)):
+                terms.append(x.t)
+            else:
+                return None
+        f = z3.Function('tmpl_' + hashlib.md5(template.encode()).hexdigest()[:12], *([t.sort() for t in terms] + [Str]))
+        t = f(*terms)
+        self.run.assume(t != STR_NONE, silent=True)
+        return SV(t, STR)
 
     def ev_FormattedValue(self, n, fr):
         return self.ev(n.value, fr)
@@ -1724,6 +1822,9 @@ class InterpExpr:
         if isinstance(v, ClassV) and v.name in self.ct.classes and self.ct.classes[v.name].is_enum:
             # iterating an Enum class yields its members in definition order
             return [EnumMember(v.name, n, code, val) for n, code, val in self.ts.enum_info(v.name)['members']]
+        if isinstance(v, ClassV) and self.ts.is_enum_class(v.name) and self.ts.enum_info(v.name)['is_enum']:
+            # iteration over an Enum class: its members in definition order
+            return [EnumMember(v.name, mn, code, val) for mn, code, val in self.ts.enum_info(v.name)['members']]
         return None
 
 
